@@ -581,7 +581,7 @@ func init() {
 			"the race detector only reports races on interleavings that actually occur; the stage-event log of the uninstrumented-for-race main run shows how diverse they were",
 			"pipeline results are compared through hashes of the printed text, two dumps, the visitor-method sequence and the sorted resolved names, plus the literal error list",
 		},
-		Plan:  func(p core.Params) int { return p.Pick(2200, 200000) },
+		Plan:  func(p core.Params) int { return p.Pick(2200, 60000) },
 		Twins: []string{"C11R"},
 		Run: func(c *core.Ctx, idx int) {
 			if idx%4 == 3 {
@@ -596,7 +596,7 @@ func init() {
 		ID:      "C11R",
 		Hidden:  true,
 		Rule:    "race-detector twin of C11",
-		Plan:    func(p core.Params) int { return p.Pick(500, 40000) },
+		Plan:    func(p core.Params) int { return p.Pick(500, 12000) },
 		Race:    func(p core.Params) bool { return true },
 		Env:     func(p core.Params) []string { return []string{"VERIF_YIELD=7"} },
 		CaseCPU: 120,
